@@ -79,6 +79,11 @@ func ParseOne
   ensures result1 == nil ==> (exists c int, d int :: 0 <= c && c < d && d <= len(old(reader.rem)) && hasPrefix(old(reader.rem)[c:d], " -- ") &&
       result0.ChangedBy == trimS(p0(p1(old(reader.rem)[c:d], "--"), "  ")))
     by { if result1 == nil { assert line#2 == old(reader.rem)[len(old(reader.rem)) - len(at(L3.head, reader.rem)) : len(old(reader.rem)) - len(reader.rem)] } }
+  // the timestamp is what time.Parse makes, under the changelog date layout, of the text after that double blank
+  ensures result1 == nil ==> (exists c int, d int :: 0 <= c && c < d && d <= len(old(reader.rem)) && hasPrefix(old(reader.rem)[c:d], " -- ") &&
+      callarg("time.Parse", -1, 1) == trimS(p1(p1(old(reader.rem)[c:d], "--"), "  ")))
+    by { if result1 == nil { assert line#2 == old(reader.rem)[len(old(reader.rem)) - len(at(L3.head, reader.rem)) : len(old(reader.rem)) - len(reader.rem)] } }
+  ensures result1 == nil ==> callarg("time.Parse", -1, 0) == "Mon, 02 Jan 2006 15:04:05 -0700" && callres("time.Parse", -1, 1) == nil && result0.When == callres("time.Parse", -1, 0)
   // an entry is returned only after input was consumed
   ensures len(reader.rem) <= len(old(reader.rem))
   ensures result1 == nil ==> len(reader.rem) < len(old(reader.rem))
